@@ -221,8 +221,16 @@ func ParseSignatureProof(sigProofBytes []byte) (*PoKOfSignatureProof, error) {
 		offset += g1CompressedSize
 	}
 
+	if len(sigProofBytes) < offset+4 {
+		return nil, errors.New("invalid size of signature proof")
+	}
+
 	proof1BytesLen := int(uint32FromBytes(sigProofBytes[offset : offset+4]))
 	offset += 4
+
+	if proof1BytesLen > len(sigProofBytes)-offset {
+		return nil, errors.New("invalid size of signature proof")
+	}
 
 	proofVc1, err := ParseProofG1(sigProofBytes[offset : offset+proof1BytesLen])
 	if err != nil {
